@@ -80,6 +80,14 @@ CHECKS["C10"] = dict(
          "no identifier/keyword clash, every fallible downstream action has an upstream guarantee, the driver has an arm for every INT.",
     design="DESIGN.md §6 C10")
 
+CHECKS["C11"] = dict(
+    technique="grammar sibling cross-check (case pairs) + action-AST abstract evaluation with marker substitution for operand order/width keywords; regex-class vs radix agreement",
+    text="Decides: every upper/lower-case literal has its sibling alternative with identical templates and effects; digit class/radix/prefix/type agreement "
+         "of all numeric alternatives; synonym folding stays inside Intel classes; operands appear in the emitted line in source order (XCHG exception); "
+         "byte/word operands keep their width keyword; one line per instruction. Does NOT decide `;` comment stripping or white-space handling (run-time "
+         "lexer/regex behaviour).",
+    design="DESIGN.md §6 C11")
+
 NOT_YET = {}
 
 
